@@ -149,6 +149,9 @@ Definition type_refs_stable (m:module) (cur:string) (t:ty) : bool :=
   end.
 (* postProcess copies the types of mixed-in applications: the listener-stage reading is final only without mixins *)
 Definition no_mixins (m:module) : bool := forallb (fun ka => match a_mixins (snd ka) with [] => true | _ => false end) m.
+(* postProcess applies the entries of a `.. * <- *` endpoint to the application's calls: final only without one *)
+Definition no_collector (m:module) : bool :=
+  forallb (fun ka => match aget collector_name (a_eps (snd ka)) with None => true | Some _ => false end) m.
 (* no reference of the specification is re-scoped by postProcess (decidable on the canonical module) *)
 Definition no_rescope (m:module) : bool :=
   forallb (fun ka =>
